@@ -1,12 +1,15 @@
 import SurfModel.Slice
+import SurfProofs.Lemmas.SliceChecked
 /-!
 # C08 — range arguments resolve with Python slice semantics
 
-Property theorems only; everything is proved for every axis length and every bound value in `Int`
-(the ten Rust integer types are sub-ranges of it).
+Everything is proved for every axis length and every bound value in `Int` (the ten Rust integer types are
+sub-ranges of it) on the `Int` model `Slice.viewBounds`; `C08_checked` transfers it to the checked
+machine-integer model `Slice.viewBoundsC` (every `i128` / `usize` operation checked, `as usize` exact) for
+all bounds a type of up to 64 bits can hold and every `size < 2^64`.
 -/
 namespace SurfProofs.C08
-open SurfModel.Slice
+open SurfModel.Slice SurfProofs.Lemmas.SliceChecked
 
 theorem emod_small {x n : Int} (h0 : 0 ≤ x) (h1 : x < n) : x % n = x := Int.emod_eq_of_lt h0 h1
 
@@ -218,28 +221,192 @@ theorem C08_type_independent (i n : Nat) : viewBounds (.idxS i) n = viewBounds (
   have : ¬ ((i:Int) < 0) := by omega
   by_cases h : (i:Int) < n <;> simp [h, this] <;> omega
 
-/-- **C08, no overflow.** With bounds taken from any of the ten integer types (`|x| ≤ 2^64`) and
-`size < 2^64` every intermediate value of `range_bounds` lies within `i128`. -/
-theorem C08_fits_i128 (x : Int) (n : Nat) (hx : -(2^64) ≤ x ∧ x ≤ 2^64) (hn : n < 2^64) :
-    let I := fun v : Int => -(2^127) ≤ v ∧ v < 2^127
-    I (x + n) ∧ I (2 * (n:Int) - 1) ∧ I (clampI (x + n) 0 (2 * n - 1)) ∧ I (-(n:Int)) ∧
-      (0 < n → I (clampI (x + n) 0 (2 * n - 1) % n + 1)) := by
-  intro I
-  have hc : 0 ≤ clampI (x + n) 0 (2 * n - 1) ∨ n = 0 := by
-    unfold clampI; split; · left; omega
-    split <;> omega
-  refine ⟨by simp only [I]; omega, by simp only [I]; omega, ?_, by simp only [I]; omega, ?_⟩
-  · simp only [I]; unfold clampI; split; · omega
-    split <;> omega
-  · intro hpos
-    have h1 := Int.emod_nonneg (clampI (x + n) 0 (2 * n - 1)) (b := (n:Int)) (by omega)
-    have h2 := Int.emod_lt_of_pos (clampI (x + n) 0 (2 * n - 1)) (b := (n:Int)) (by omega)
-    simp only [I]; omega
+/-- **C08, the values before `as usize`.** `range_bounds` and the signed single index compute `start`, `end`
+as `i128` and convert with `as usize` at the very end. The `Int` model without that conversion
+(`viewBoundsI`; `viewBounds` is its image under `toNat`) already satisfies `0 ≤ start < end ≤ n` — for ANY
+bound values —, so the conversion never sees a negative number or one above the axis length. (`C08_range`
+speaks about the converted naturals, where `0 ≤ start` holds trivially.) -/
+theorem C08_int_range (sel : Sel) (n : Nat) :
+    viewBounds sel n = (viewBoundsI sel n).map (fun p => (p.1.toNat, p.2.toNat)) ∧
+    ∀ a b : Int, viewBoundsI sel n = some (a, b) → 0 ≤ a ∧ a < b ∧ b ≤ n := by
+  constructor
+  · cases sel with
+    | idxS i =>
+      simp only [viewBounds, viewBoundsI, indexSigned]
+      by_cases hc : (decide (i < -(n:Int)) || decide (i ≥ (n:Int))) = true
+      · simp only [hc, if_true, Option.map_none]
+      · simp only [hc, if_false, Option.map_some, Bool.false_eq_true]
+        simp only [Bool.or_eq_true, decide_eq_true_eq, not_or] at hc
+        by_cases h0 : i < 0
+        · simp only [h0, if_true, Option.some.injEq, Prod.mk.injEq, true_and]; omega
+        · simp only [h0, if_false, Option.some.injEq, Prod.mk.injEq, true_and]; omega
+    | idxU i =>
+      simp only [viewBounds, viewBoundsI, indexUnsigned]
+      by_cases hc : i ≥ n
+      · simp only [hc, if_true, Option.map_none]
+      · simp only [hc, if_false, Option.map_some, Option.some.injEq, Prod.mk.injEq]; omega
+    | range a b => exact rangeBounds_eq_I (.included a) (.excluded b) n
+    | «from» a => exact rangeBounds_eq_I (.included a) .unbounded n
+    | to b => exact rangeBounds_eq_I .unbounded (.excluded b) n
+    | incl a b => exact rangeBounds_eq_I (.included a) (.included b) n
+    | toIncl b => exact rangeBounds_eq_I .unbounded (.included b) n
+    | full => exact rangeBounds_eq_I .unbounded .unbounded n
+  · intro a b h
+    cases sel with
+    | idxS i =>
+      simp only [viewBoundsI] at h
+      split at h
+      · cases h
+      · rename_i hc
+        simp only [Bool.or_eq_true, decide_eq_true_eq, not_or] at hc
+        simp only [Option.some.injEq, Prod.mk.injEq] at h
+        obtain ⟨rfl, rfl⟩ := h
+        split <;> omega
+    | idxU i =>
+      simp only [viewBoundsI] at h
+      split at h
+      · cases h
+      · simp only [Option.some.injEq, Prod.mk.injEq] at h
+        obtain ⟨rfl, rfl⟩ := h
+        omega
+    | range a' b' => exact rangeBoundsI_range (.included a') (.excluded b') n a b h
+    | «from» a' => exact rangeBoundsI_range (.included a') .unbounded n a b h
+    | to b' => exact rangeBoundsI_range .unbounded (.excluded b') n a b h
+    | incl a' b' => exact rangeBoundsI_range (.included a') (.included b') n a b h
+    | toIncl b' => exact rangeBoundsI_range .unbounded (.included b') n a b h
+    | full => exact rangeBoundsI_range .unbounded .unbounded n a b h
+
+/-- the same on the specification side: the integers `pySel` yields, when they denote a non-empty
+selection, lie within the axis before `pySlice` converts them -/
+theorem C08_spec_int_range (sel : Sel) (n : Nat) (a b : Int) (h : pySel sel n = some (a, b)) :
+    0 ≤ a ∧ b ≤ n := by
+  have hn : (0:Int) ≤ n := by omega
+  cases sel <;> simp only [pySel] at h
+  case idxS i => split at h <;> simp at h; obtain ⟨rfl, rfl⟩ := h; split <;> omega
+  case idxU i => split at h <;> simp at h; obtain ⟨rfl, rfl⟩ := h; omega
+  case range a' b' => simp at h; obtain ⟨rfl, rfl⟩ := h; exact ⟨(pyIdx_range a' n hn).1, (pyIdx_range b' n hn).2⟩
+  case «from» a' => simp at h; obtain ⟨rfl, rfl⟩ := h; exact ⟨(pyIdx_range a' n hn).1, by omega⟩
+  case to b' => simp at h; obtain ⟨rfl, rfl⟩ := h; exact ⟨by omega, (pyIdx_range b' n hn).2⟩
+  case incl a' b' => simp at h; obtain ⟨rfl, rfl⟩ := h; exact ⟨(pyIdx_range a' n hn).1, (pyEndIncl_range b' n hn).2⟩
+  case toIncl b' => simp at h; obtain ⟨rfl, rfl⟩ := h; exact ⟨by omega, (pyEndIncl_range b' n hn).2⟩
+  case full => simp at h; obtain ⟨rfl, rfl⟩ := h; omega
+
+/-- **C08, remainder.** Rust's `%` truncates towards zero, Lean's `%` on `Int` is Euclidean. They agree on a
+non-negative dividend, and the dividend of both `%` in `range_bounds` is a value clamped to
+`0 ..= 2 * size - 1`, hence non-negative (for `size > 0`; `size = 0` returns before). -/
+theorem C08_rem_agree (x size : Int) (hs : 0 < size) :
+    0 ≤ clampI (x + size) 0 (2 * size - 1) ∧
+    Int.tmod (clampI (x + size) 0 (2 * size - 1)) size = clampI (x + size) 0 (2 * size - 1) % size := by
+  have h := (clampI_range (x + size) (2 * size - 1) (by omega)).1
+  exact ⟨h, rem_agree _ _ h⟩
+
+/-- **C08, machine integers.** On the checked model of the code — every `i128` addition, subtraction,
+multiplication, negation and remainder checked against the `i128` range (a violation would be the debug-profile
+panic), `usize + 1` checked, `as usize` required to be exact — no fault outcome (`overflow`, `divZero`,
+`castWraps`) is reachable for any selector whose bounds lie in `-2^63 ≤ x < 2^64` (the union of the ten integer
+types) and any `size < 2^64`, and the result is that of the `Int` model: so `C08_slice`, `C08_range` and
+`C08_int_range` hold of the machine-integer code. -/
+theorem C08_checked (sel : Sel) (n : Nat) (hsel : sel.inRange) (hn : n < 2 ^ 64) :
+    viewBoundsC sel n = .ok (viewBounds sel n) := by
+  cases sel with
+  | idxS i => exact indexSignedC_ok i n hsel hn
+  | idxU i => exact indexUnsignedC_ok i n hn
+  | range a b => exact rangeBoundsC_ok (.included a) (.excluded b) n hn hsel.1 hsel.2
+  | «from» a => exact rangeBoundsC_ok (.included a) .unbounded n hn hsel trivial
+  | to b => exact rangeBoundsC_ok .unbounded (.excluded b) n hn trivial hsel
+  | incl a b => exact rangeBoundsC_ok (.included a) (.included b) n hn hsel.1 hsel.2
+  | toIncl b => exact rangeBoundsC_ok .unbounded (.included b) n hn trivial hsel
+  | full => exact rangeBoundsC_ok .unbounded .unbounded n hn trivial trivial
+
+/-- … hence the checked model computes the Python slice -/
+theorem C08_checked_slice (sel : Sel) (n : Nat) (hsel : sel.inRange) (hn : n < 2 ^ 64) :
+    viewBoundsC sel n = .ok (pySlice sel n) := by
+  rw [C08_checked sel n hsel hn, C08_slice]
+
+theorem holds_B64 (t : IntTy) (x : Int) (h : t.holds x) : B64 x := by
+  unfold IntTy.holds IntTy.lo IntTy.hi at h
+  unfold B64
+  cases t <;> simp only [IntTy.signed, IntTy.bits, if_true, if_false, Bool.false_eq_true] at h <;> omega
+
+theorem selOf_inRange (t : IntTy) (f : Form) (h : ∀ x ∈ f.bounds, t.holds x) : (selOf t f).inRange := by
+  cases f with
+  | idx i =>
+    have hb := holds_B64 t i (h i (by simp [Form.bounds]))
+    show (if t.signed then Sel.idxS i else Sel.idxU i.toNat).inRange
+    cases t.signed
+    · unfold B64 at hb; simp only [Bool.false_eq_true, if_false, Sel.inRange]; omega
+    · exact hb
+  | range a b => exact ⟨holds_B64 t a (h a (by simp [Form.bounds])), holds_B64 t b (h b (by simp [Form.bounds]))⟩
+  | «from» a => exact holds_B64 t a (h a (by simp [Form.bounds]))
+  | to b => exact holds_B64 t b (h b (by simp [Form.bounds]))
+  | incl a b => exact ⟨holds_B64 t a (h a (by simp [Form.bounds])), holds_B64 t b (h b (by simp [Form.bounds]))⟩
+  | toIncl b => exact holds_B64 t b (h b (by simp [Form.bounds]))
+  | full => trivial
+
+/-- **C08, type independence, all forms.** A selector form whose bound values can be written in two integer
+types `t1`, `t2` resolves identically through the impls the two types select (`selOf`: signed or unsigned
+single-index impl; for the range forms the bounds are widened by the value-preserving `as i128`, so the model
+receives the mathematical values and the statement holds by construction of the model — what ties it to the
+code is the harness's cast check: requests carry the mathematical value of every typed bound). Both
+resolutions are fault-free on the checked model and equal the Python slice of the mathematical values. -/
+theorem C08_type_independent_forms (t1 t2 : IntTy) (f : Form) (n : Nat)
+    (h1 : ∀ x ∈ f.bounds, t1.holds x) (h2 : ∀ x ∈ f.bounds, t2.holds x) (hn : n < 2 ^ 64) :
+    viewBounds (selOf t1 f) n = viewBounds (selOf t2 f) n ∧
+    viewBoundsC (selOf t1 f) n = .ok (pySlice (selOf t1 f) n) ∧
+    viewBoundsC (selOf t2 f) n = .ok (pySlice (selOf t1 f) n) := by
+  have key : viewBounds (selOf t1 f) n = viewBounds (selOf t2 f) n := by
+    cases f with
+    | idx i =>
+      have hi1 := h1 i (by simp [Form.bounds])
+      have hi2 := h2 i (by simp [Form.bounds])
+      show viewBounds (if t1.signed then Sel.idxS i else Sel.idxU i.toNat) n =
+        viewBounds (if t2.signed then Sel.idxS i else Sel.idxU i.toNat) n
+      cases hs1 : t1.signed <;> cases hs2 : t2.signed <;> simp only [if_true, if_false, Bool.false_eq_true]
+      · have : 0 ≤ i := by
+          have := hi1.1; unfold IntTy.lo at this; simp [hs1] at this; exact this
+        have e : i = ((i.toNat : Nat) : Int) := by omega
+        have k := C08_type_independent i.toNat n
+        rw [← e] at k
+        exact k.symm
+      · have : 0 ≤ i := by
+          have := hi2.1; unfold IntTy.lo at this; simp [hs2] at this; exact this
+        have e : i = ((i.toNat : Nat) : Int) := by omega
+        have k := C08_type_independent i.toNat n
+        rw [← e] at k
+        exact k
+    | _ => rfl
+  refine ⟨key, C08_checked_slice _ n (selOf_inRange t1 f h1) hn, ?_⟩
+  rw [C08_checked _ n (selOf_inRange t2 f h2) hn, ← key, C08_slice]
 
 /-! Non-vacuity and the pinned defect as kernel-checked examples. -/
 example : viewBounds (.toIncl (-11)) 10 = none := by decide
 example : viewBounds (.range (-5) 8) 10 = some (5, 8) := by decide
 example : viewBounds (.idxS 5) 200 = some (5, 6) := by decide
 example : viewBounds (.from (2^64 - 1)) 10 = none := by decide
+
+/-! `C08_checked` is not vacuous: a selector within range; and the checked model does fault outside the domain
+(a bound beyond every 64-bit type), so the hypotheses are needed. -/
+example : (Sel.incl (-(2 ^ 63)) (2 ^ 64 - 1)).inRange ∧ viewBoundsC (.incl (-(2 ^ 63)) (2 ^ 64 - 1)) (2 ^ 64 - 1) =
+    .ok (some (2 ^ 63 - 1, 2 ^ 64 - 1)) := by decide +kernel
+example : viewBoundsC (.from (2 ^ 127 - 1)) 10 = .error .overflow := by decide +kernel
+example : IntTy.holds .i8 (-128) ∧ IntTy.holds .u64 (2 ^ 64 - 1) ∧ ¬ IntTy.holds .i8 128 := by decide
+
+/-! ## External anchor: the crate's own `test_view_bounds` literals (src/surface.rs), on the model of the code,
+on the checked model and on the specification. -/
+example : viewBounds .full 10 = some (0, 10) ∧ pySlice .full 10 = some (0, 10) ∧ viewBoundsC .full 10 = .ok (some (0, 10)) := by decide
+example : viewBounds (.to (-1)) 10 = some (0, 9) ∧ pySlice (.to (-1)) 10 = some (0, 9) ∧ viewBoundsC (.to (-1)) 10 = .ok (some (0, 9)) := by decide
+example : viewBounds (.toIncl (-1)) 10 = some (0, 10) ∧ pySlice (.toIncl (-1)) 10 = some (0, 10) ∧ viewBoundsC (.toIncl (-1)) 10 = .ok (some (0, 10)) := by decide
+example : viewBounds (.range (-5) 8) 10 = some (5, 8) ∧ pySlice (.range (-5) 8) 10 = some (5, 8) ∧ viewBoundsC (.range (-5) 8) 10 = .ok (some (5, 8)) := by decide
+example : viewBounds (.from (-10)) 10 = some (0, 10) ∧ pySlice (.from (-10)) 10 = some (0, 10) ∧ viewBoundsC (.from (-10)) 10 = .ok (some (0, 10)) := by decide
+example : viewBounds (.to 20) 10 = some (0, 10) ∧ pySlice (.to 20) 10 = some (0, 10) ∧ viewBoundsC (.to 20) 10 = .ok (some (0, 10)) := by decide
+example : viewBounds (.range 10 20) 10 = none ∧ pySlice (.range 10 20) 10 = none ∧ viewBoundsC (.range 10 20) 10 = .ok none := by decide
+example : viewBounds (.range 9 20) 10 = some (9, 10) ∧ pySlice (.range 9 20) 10 = some (9, 10) ∧ viewBoundsC (.range 9 20) 10 = .ok (some (9, 10)) := by decide
+example : viewBounds (.from 10) 10 = none ∧ pySlice (.from 10) 10 = none ∧ viewBoundsC (.from 10) 10 = .ok none := by decide
+example : viewBounds (.idxS 1) 10 = some (1, 2) ∧ pySlice (.idxS 1) 10 = some (1, 2) ∧ viewBoundsC (.idxS 1) 10 = .ok (some (1, 2)) := by decide
+example : viewBounds (.idxS (-1)) 10 = some (9, 10) ∧ pySlice (.idxS (-1)) 10 = some (9, 10) ∧ viewBoundsC (.idxS (-1)) 10 = .ok (some (9, 10)) := by decide
+example : viewBounds (.idxS (-10)) 10 = some (0, 1) ∧ pySlice (.idxS (-10)) 10 = some (0, 1) ∧ viewBoundsC (.idxS (-10)) 10 = .ok (some (0, 1)) := by decide
+example : viewBounds (.idxS (-11)) 10 = none ∧ pySlice (.idxS (-11)) 10 = none ∧ viewBoundsC (.idxS (-11)) 10 = .ok none := by decide
+example : viewBounds (.idxS 10) 10 = none ∧ pySlice (.idxS 10) 10 = none ∧ viewBoundsC (.idxS 10) 10 = .ok none := by decide
+example : viewBounds (.idxS 10) 0 = none ∧ pySlice (.idxS 10) 0 = none ∧ viewBoundsC (.idxS 10) 0 = .ok none := by decide
 
 end SurfProofs.C08
